@@ -230,7 +230,9 @@ _Bool vx_head_sameSet_0(unsigned long *x, unsigned long *y) {
     return 1;
 }
 static _Bool I_un(unsigned long x, unsigned long y) {
-    return INV(&S.s) && x < S.s.n && y < S.s.n && EVOLVE(&H.entry_un, &S.s) && same(&S.s, x, Q.x0) && same(&S.s, y, Q.y0) &&
+    return INV(&S.s) && x < S.s.n && y < S.s.n && EVOLVE(&H.entry_un, &S.s) &&
+           /* the code may swap x and y (std::swap) before retrying */
+           ((same(&S.s, x, Q.x0) && same(&S.s, y, Q.y0)) || (same(&S.s, x, Q.y0) && same(&S.s, y, Q.x0))) &&
            Q.req_on && Q.req_x == Q.x0 && Q.req_y == Q.y0
 #ifdef VX_SEQ
            && STILL(&H.entry_un, &S.s)     /* nothing has changed until the link succeeds (then the loop is left) */
@@ -261,7 +263,7 @@ _Bool vx_head_unionNodes_0(unsigned long *x, unsigned long *y) {
    the state only EVOLVEs; this thread performs no merge.  Sequentially: the result IS the root, roots/ranks/classes unchanged. */
 unsigned long h_findNode(void *ds, unsigned long x)
 __CPROVER_requires(DS && INV(&S.s) && x < S.s.n && S.merges == 0)
-__CPROVER_ensures(INV(&S.s) && RET < S.s.n && S.merges == 0)
+__CPROVER_ensures(INV(&S.s) && RET < S.s.n && S.merges == 0 && S.fresh == OLD(S.fresh))
 __CPROVER_ensures(EVOLVEv(OLD(S.s), S.snap) && EVOLVE(&S.snap, &S.s))
 __CPROVER_ensures(isroot(&S.snap, RET) && same(&S.snap, RET, x))
 #ifdef VX_SEQ
@@ -272,9 +274,9 @@ __CPROVER_assigns(S);
 /* updateRoot: true only if this thread's single CAS succeeded on node x being a root of rank oldrank at that instant */
 _Bool h_updateRoot(void *ds, unsigned long x, unsigned char oldrank, unsigned long y, unsigned char newrank)
 __CPROVER_requires(DS && INV(&S.s) && x < S.s.n && y < S.s.n && S.nsteps_chg == 0)
-__CPROVER_requires(Q.req_on && ((same(&S.s, x, Q.req_x) && same(&S.s, y, Q.req_y)) || (same(&S.s, x, Q.req_y) && same(&S.s, y, Q.req_x))))
+__CPROVER_requires(Q.req_on && Q.req_x < S.s.n && Q.req_y < S.s.n && ((same(&S.s, x, Q.req_x) && same(&S.s, y, Q.req_y)) || (same(&S.s, x, Q.req_y) && same(&S.s, y, Q.req_x))))
 /* caller's obligation (what unionNodes must have established): y was observed as a root with rank newrank' and (oldrank,x) < (rank,y) */
-__CPROVER_requires(x != y ? (oldrank < keyrank(&S.s, y) || (oldrank == keyrank(&S.s, y) && x < y)) : (newrank == oldrank + 1 && (1u << (oldrank + 1u)) <= csize(&S.s, S.s.set[x])))
+__CPROVER_requires(x != y ? (oldrank < keyrank(&S.s, y) || (oldrank == keyrank(&S.s, y) && x < y)) : (newrank == oldrank + 1 && oldrank < 7 && (1u << (oldrank + 1u)) <= csize(&S.s, S.s.set[x])))
 __CPROVER_ensures(INV(&S.s) && EVOLVEv(OLD(S.s), S.s))
 __CPROVER_ensures(RET ==> (isroot(&S.snap, x) && rk(&S.snap, x) == oldrank))
 __CPROVER_ensures((RET && x != y) ==> (par(&S.snap, x) == x && S.merges >= 1))
